@@ -41,23 +41,38 @@ import (
 // so success would be a violation by the same ledger rule.
 
 type c15Fault struct {
-	kind string // "", "map-notfound", "map-error", "newimporter-error", "save-error", "merge-error", "flush-error"
-	pos  int64  // offset of the height from `from` (flush-error: index of the flush call)
+	kind string // "", "map-notfound", "map-error", "newimporter-error", "save-error", "merge-error", "flush-error", or a "cancel-*" kind (c15_cancel_test.go)
+	pos  int64  // offset of the height from `from` (flush-error, cancel-flush: index of the flush call)
+	// the two fields below are only used by the cancellation cases (c15_cancel_test.go)
+	items bool               // the block maps have items: importBlock runs its item worker, blockItemf and WriteItem are called
+	honor bool               // the stubs that are given a context return ctx.Err() when it is already done at their entry
+	item  base.BlockItemType // real-importer part: the item at which cancel-item / cancel-writeitem fires
 }
 
 func (f c15Fault) String() string {
-	if f.kind == "" {
-		return "none"
+	s := "none"
+	if f.kind != "" {
+		s = fmt.Sprintf("%s@%d", f.kind, f.pos)
 	}
-	return fmt.Sprintf("%s@%d", f.kind, f.pos)
+	if f.item != "" {
+		s += "/" + string(f.item)
+	}
+	if f.items && !f.isCancel() {
+		s += "+items"
+	}
+	if f.honor {
+		s += "+honor"
+	}
+
+	return s
 }
 
 type c15Ledger struct {
-	mu        sync.Mutex
-	events    []string
-	saved     map[base.Height]int
-	merged    map[base.Height]int
-	cancelled map[base.Height]int
+	mu               sync.Mutex
+	events           []string
+	saved            map[base.Height]int
+	merged           map[base.Height]int
+	cancelled        map[base.Height]int
 	mergedBeforeSave bool
 	lastMerged       base.Height
 	mergeOrderBroken bool
@@ -65,12 +80,17 @@ type c15Ledger struct {
 	flushOK          int
 	dirty            bool // a merge happened after the last successful flush
 	newImporters     map[base.Height]int
+	// cancellation cases
+	cancelFired int                          // how often the chosen cancellation site was reached (the context is cancelled there)
+	written     map[base.Height]int          // WriteItem calls per height
+	importers   map[base.Height]*c15Importer // importer of a height, for the blockItemf stub
 }
 
 func newC15Ledger() *c15Ledger {
 	return &c15Ledger{
 		saved: map[base.Height]int{}, merged: map[base.Height]int{}, cancelled: map[base.Height]int{},
 		newImporters: map[base.Height]int{}, lastMerged: base.NilHeight,
+		written: map[base.Height]int{}, importers: map[base.Height]*c15Importer{},
 	}
 }
 
@@ -85,19 +105,45 @@ type c15Importer struct {
 	height base.Height
 	fault  c15Fault
 	from   base.Height
+	cancel func() // cancels the context given to ImportBlocks
 }
 
 func (im *c15Importer) hit(kind string) bool {
 	return im.fault.kind == kind && im.from+base.Height(im.fault.pos) == im.height
 }
 
-func (*c15Importer) WriteMap(base.BlockMap) error                            { return nil }
-func (*c15Importer) WriteItem(base.BlockItemType, isaac.BlockItemReader) error { return nil }
+func (*c15Importer) WriteMap(base.BlockMap) error { return nil }
 
-func (im *c15Importer) Save(context.Context) (func(context.Context) error, error) {
+func (im *c15Importer) WriteItem(t base.BlockItemType, _ isaac.BlockItemReader) error {
 	l := im.l
 	l.mu.Lock()
 	defer l.mu.Unlock()
+
+	l.written[im.height]++
+
+	if t == c15ItemTypes[len(c15ItemTypes)-1] && im.hit("cancel-writeitem") {
+		l.fire(im.cancel, "writeitem", im.height)
+	}
+
+	return nil
+}
+
+func (im *c15Importer) Save(ctx context.Context) (func(context.Context) error, error) {
+	l := im.l
+	l.mu.Lock()
+	defer l.mu.Unlock()
+
+	if im.fault.honor && ctx.Err() != nil {
+		l.ev("save?%d", im.height)
+
+		return nil, ctx.Err()
+	}
+
+	if im.fault.items && l.written[im.height] < len(c15ItemTypes) { // like the real importer: "not yet finished"
+		l.ev("save?%d", im.height)
+
+		return nil, errors.Errorf("c15: not yet finished, %d items written", l.written[im.height])
+	}
 
 	if im.hit("save-error") {
 		l.ev("save!%d", im.height)
@@ -108,9 +154,19 @@ func (im *c15Importer) Save(context.Context) (func(context.Context) error, error
 	l.saved[im.height]++
 	l.ev("save%d", im.height)
 
-	return func(context.Context) error {
+	if im.hit("cancel-save") {
+		l.fire(im.cancel, "save", im.height)
+	}
+
+	return func(ctx context.Context) error {
 		l.mu.Lock()
 		defer l.mu.Unlock()
+
+		if im.fault.honor && ctx.Err() != nil {
+			l.ev("merge?%d", im.height)
+
+			return ctx.Err()
+		}
 
 		if im.hit("merge-error") {
 			l.ev("merge!%d", im.height)
@@ -132,6 +188,10 @@ func (im *c15Importer) Save(context.Context) (func(context.Context) error, error
 		l.dirty = true
 		l.ev("merge%d", im.height)
 
+		if im.hit("cancel-merge") {
+			l.fire(im.cancel, "merge", im.height)
+		}
+
 		return nil
 	}, nil
 }
@@ -147,11 +207,12 @@ func (im *c15Importer) CancelImport(context.Context) error {
 }
 
 type c15Result struct {
-	err        error
-	complete   bool   // ledger says: every height stored, merged, flushed, nothing cancelled
-	why        string // first reason it is not complete
-	lastStored base.Height
-	events     string
+	err         error
+	complete    bool   // ledger says: every height stored, merged, flushed, nothing cancelled
+	why         string // first reason it is not complete
+	lastStored  base.Height
+	events      string
+	cancelFired int
 }
 
 var c15MapCache []base.BlockMap
@@ -172,13 +233,37 @@ func c15Run(from base.Height, count, limit int64, fault c15Fault) c15Result {
 	to := from + base.Height(count) - 1
 
 	maps := c15Maps(to)
+	if fault.items {
+		maps = c15ItemMaps(to)
+	}
+
+	ctx, cancel := context.WithCancel(context.Background())
+	defer cancel()
+
+	hit := func(kind string, height base.Height) bool {
+		return fault.kind == kind && from+base.Height(fault.pos) == height
+	}
+
+	if fault.kind == "cancel-start" {
+		l.fire(cancel, "start", from)
+	}
 
 	err := ImportBlocks(
-		context.Background(),
+		ctx,
 		from, to,
 		limit,
-		nil, // the stub maps have no items, so the readers are never touched
-		func(_ context.Context, height base.Height) (base.BlockMap, bool, error) {
+		nil, // the readers are never touched: the stub maps have no items, or (items) the blockItemf stub hands the item to the importer itself
+		func(ctx context.Context, height base.Height) (base.BlockMap, bool, error) {
+			if fault.honor && ctx.Err() != nil {
+				return nil, false, ctx.Err()
+			}
+
+			if hit("cancel-map", height) {
+				l.mu.Lock()
+				l.fire(cancel, "map", height)
+				l.mu.Unlock()
+			}
+
 			switch {
 			case fault.kind == "map-notfound" && from+base.Height(fault.pos) == height:
 				return nil, false, nil
@@ -192,24 +277,53 @@ func c15Run(from base.Height, count, limit int64, fault c15Fault) c15Result {
 
 			return maps[height], true, nil
 		},
-		nil,
+		func(ctx context.Context, height base.Height, item base.BlockItemType, _ func(io.Reader, bool, string) error) error {
+			// only reached with item maps. The stub stands for "fetch the item, decode it and hand it to the
+			// importer of that height" (the real callback needs real readers; the real-importer part runs it).
+			if fault.honor && ctx.Err() != nil {
+				return ctx.Err()
+			}
+
+			l.mu.Lock()
+			im := l.importers[height]
+
+			if item == c15ItemTypes[0] && hit("cancel-item", height) {
+				l.fire(cancel, "item", height)
+			}
+			l.mu.Unlock()
+
+			return im.WriteItem(item, nil)
+		},
 		func(m base.BlockMap) (isaac.BlockImporter, error) {
 			h := m.Manifest().Height()
 
+			im := &c15Importer{l: l, height: h, fault: fault, from: from, cancel: cancel}
+
 			l.mu.Lock()
 			l.newImporters[h]++
+			l.importers[h] = im
+
+			if hit("cancel-newimporter", h) {
+				l.fire(cancel, "newimporter", h)
+			}
 			l.mu.Unlock()
 
 			if fault.kind == "newimporter-error" && from+base.Height(fault.pos) == h {
 				return nil, errors.Errorf("c15: scripted new importer error")
 			}
 
-			return &c15Importer{l: l, height: h, fault: fault, from: from}, nil
+			return im, nil
 		},
 		nil,
-		func(context.Context) error {
+		func(ctx context.Context) error {
 			l.mu.Lock()
 			defer l.mu.Unlock()
+
+			if fault.honor && ctx.Err() != nil {
+				l.ev("flush?")
+
+				return ctx.Err()
+			}
 
 			i := l.flushCalls
 			l.flushCalls++
@@ -224,6 +338,10 @@ func c15Run(from base.Height, count, limit int64, fault c15Fault) c15Result {
 			l.dirty = false
 			l.ev("flush")
 
+			if fault.kind == "cancel-flush" && int64(i) == fault.pos {
+				l.fire(cancel, "flush", base.Height(i))
+			}
+
 			return nil
 		},
 	)
@@ -231,7 +349,7 @@ func c15Run(from base.Height, count, limit int64, fault c15Fault) c15Result {
 	l.mu.Lock()
 	defer l.mu.Unlock()
 
-	res := c15Result{err: err, lastStored: l.lastMerged, events: strings.Join(l.events, " ")}
+	res := c15Result{err: err, lastStored: l.lastMerged, events: strings.Join(l.events, " "), cancelFired: l.cancelFired}
 
 	var missing []string
 	for h := from; h <= to; h++ {
@@ -292,15 +410,33 @@ func TestVerifC15(t *testing.T) {
 
 	r.Rule("every (from, count, batchlimit) in {0,5} x 1..N x 1..N+1, without fault and with every single fault " +
 		"(5 kinds x every height, plus a failing mergeBlockWriterDatabases at every batch); each tuple is a distinct input; " +
-		"non-trivial = count is a multiple of batchlimit (the last batch is a full one)")
+		"non-trivial = count is a multiple of batchlimit (the last batch is a full one). " +
+		"Cancellation of the caller's context: for every (from, count <= C, batchlimit <= C+1) the context given to ImportBlocks " +
+		"is cancelled from inside one chosen stub call - before the start, inside blockMapf / newBlockImporter / blockItemf / " +
+		"WriteItem / Save / the deferred merge function of every height, inside every mergeBlockWriterDatabases call - with block " +
+		"maps that have 2 items, once with stubs that ignore the context and once with stubs that return ctx.Err() when their " +
+		"context is already done; after a cancellation nil is legal only with the complete ledger. The real-importer part " +
+		"cancels at the same sites (every item type) for its small ranges")
 	r.Assume("recording isaac.BlockImporter stubs stand for the real importer: Save/merge/CancelImport only record; " +
 		"the order in which the jobs of one batch run is left to the Go runtime, the oracle does not depend on it")
+	r.Assume("in the stub part with item maps the blockItemf stub hands the item to the importer of that height itself " +
+		"(the real callback chain blockItemf -> readers.ItemFromReader -> WriteItem runs in the real-importer part); " +
+		"the stub Save refuses, like the real importer, when not every item was written")
+	r.Assume("a cancellation is issued synchronously from inside a stub call; a cancellation that arrives while no stub call " +
+		"is running is not generated")
 
 	N := int64(vlib.Pick(r, 12, 40))
 	if _, replaying := r.Replaying(); replaying { // replays run in the quick tier: search the thorough space for the recorded id
 		N = 40
 	}
 
+	// cancellation of the caller's context at every stub call site: every count <= C, every batch limit <= C+1
+	C := int64(vlib.Pick(r, 12, 40))
+	if _, replaying := r.Replaying(); replaying {
+		C = 40
+	}
+
+	r.Set("cancel_count_max", C)
 	r.Set("count_max", N)
 	r.Set("batchlimit_max", N+1)
 	r.Set("from_heights", []int64{0, 5})
@@ -319,7 +455,7 @@ func TestVerifC15(t *testing.T) {
 			}
 
 			for _, from := range []base.Height{base.GenesisHeight, 5} {
-				for _, fault := range c15Faults(count, limit) {
+				for _, fault := range append(c15Faults(count, limit), c15Cancels(count, limit, C)...) {
 					id := fmt.Sprintf("from=%d,count=%d,limit=%d,fault=%s", from, count, limit, fault)
 					if !r.Want(id) {
 						continue
@@ -382,21 +518,46 @@ func c15Real(t *testing.T, r *vlib.Run) {
 			}
 
 			id := fmt.Sprintf("real,from=0,count=%d,limit=%d", count, limit)
-			if !r.Want(id) {
-				continue
-			}
 
 			if r.Expired() {
 				return
 			}
 
-			c15RealCase(r, s, id, from, count, limit)
+			if r.Want(id) {
+				c15RealCase(r, s, id, from, count, limit, c15Fault{})
+			}
+
+			for _, fault := range c15RealCancels(count, limit) {
+				cid := id + ",fault=" + fault.String()
+				if !r.Want(cid) {
+					continue
+				}
+
+				if r.Expired() {
+					return
+				}
+
+				c15RealCase(r, s, cid, from, count, limit, fault)
+			}
 		}
 	}
 }
 
-func c15RealCase(r *vlib.Run, s *testImportBlocks, id string, from base.Height, count, limit int64) {
+func c15RealCase(r *vlib.Run, s *testImportBlocks, id string, from base.Height, count, limit int64, fault c15Fault) {
 	to := from + base.Height(count) - 1
+
+	// cancellation cases (fault.kind "cancel-*"): the caller's context is cancelled from inside the chosen call.
+	// After a cancellation the job workers of ImportBlocks return without waiting for their running jobs, so
+	// every callback passes a gate that is closed when ImportBlocks has returned: late calls touch nothing.
+	ctx, cancel := context.WithCancel(context.Background())
+	defer cancel()
+
+	gate := &c15Gate{}
+	env := &c15RealEnv{fault: fault, from: from, cancel: cancel}
+
+	if fault.kind == "cancel-start" {
+		env.fire()
+	}
 
 	importRoot, err := os.MkdirTemp("", "verif-c15-import")
 	if err != nil {
@@ -414,12 +575,21 @@ func c15RealCase(r *vlib.Run, s *testImportBlocks, id string, from base.Height, 
 		panic(err)
 	}
 
+	var flushes int64
+
 	ierr := ImportBlocks(
-		context.Background(),
+		ctx,
 		from, to,
 		limit,
 		s.Readers,
 		func(_ context.Context, height base.Height) (base.BlockMap, bool, error) {
+			if !gate.enter() {
+				return nil, false, errC15Late
+			}
+			defer gate.leave()
+
+			env.at("cancel-map", height, "")
+
 			rm, found, err := isaac.BlockItemReadersDecode[base.BlockMap](s.Readers.Item, height, base.BlockItemMap, nil)
 			if err != nil {
 				return nil, false, err
@@ -428,6 +598,13 @@ func c15RealCase(r *vlib.Run, s *testImportBlocks, id string, from base.Height, 
 			return rm, found, nil
 		},
 		func(_ context.Context, height base.Height, item base.BlockItemType, f func(io.Reader, bool, string) error) error {
+			if !gate.enter() {
+				return errC15Late
+			}
+			defer gate.leave()
+
+			env.at("cancel-item", height, item)
+
 			switch _, found, err := s.Readers.Item(height, item, func(ir isaac.BlockItemReader) error {
 				return f(ir.Reader(), true, ir.Reader().Format)
 			}); {
@@ -440,27 +617,55 @@ func c15RealCase(r *vlib.Run, s *testImportBlocks, id string, from base.Height, 
 			}
 		},
 		func(m base.BlockMap) (isaac.BlockImporter, error) {
-			bwdb, err := importdb.NewBlockWriteDatabase(m.Manifest().Height())
+			if !gate.enter() {
+				return nil, errC15Late
+			}
+			defer gate.leave()
+
+			height := m.Manifest().Height()
+
+			bwdb, err := importdb.NewBlockWriteDatabase(height)
 			if err != nil {
 				return nil, err
 			}
 
-			return NewBlockImporter(
+			im, err := NewBlockImporter(
 				importRoot,
 				s.Encs,
 				m,
 				bwdb,
 				func(context.Context) error {
-					return importdb.MergeBlockWriteDatabase(bwdb)
+					err := importdb.MergeBlockWriteDatabase(bwdb)
+
+					env.at("cancel-merge", height, "")
+
+					return err
 				},
 				s.LocalParams.NetworkID(),
 			)
+
+			env.at("cancel-newimporter", height, "")
+
+			if err != nil {
+				return nil, err
+			}
+
+			return &c15RealImporter{BlockImporter: im, env: env, gate: gate, height: height}, nil
 		},
 		nil,
 		func(context.Context) error {
-			return importdb.MergeAllPermanent()
+			err := importdb.MergeAllPermanent()
+
+			if fault.kind == "cancel-flush" && flushes == fault.pos {
+				env.fire()
+			}
+			flushes++
+
+			return err
 		},
 	)
+
+	gate.close()
 
 	r.Eval()
 	r.Trace()
@@ -494,12 +699,30 @@ func c15RealCase(r *vlib.Run, s *testImportBlocks, id string, from base.Height, 
 	sig := map[string]any{
 		"count_multiple_of_limit": multiple,
 		"single_batch":            count <= limit,
-		"fault":                   "",
+		"fault":                   fault.kind,
 		"importer":                "real",
 	}
 	replay := map[string]any{"from": from.Int64(), "count": count, "limit": limit, "importer": "real"}
 
+	if fault.isCancel() {
+		sig["last_batch_blocks_ge_2"] = c15LastBatch(count, limit) >= 2
+		replay["fault"] = fault.String()
+		r.Add("real_cancel_cases", 1)
+	}
+
 	switch {
+	case ierr != nil && fault.isCancel():
+		if n := env.fired(); n != 1 {
+			r.Outcome(fmt.Sprintf("real importer: %s site reached %d times", fault.kind, n))
+			r.Add("cancel_site_not_reached_once", 1)
+
+			break
+		}
+
+		r.Outcome("real importer: error after " + fault.kind)
+		if count == 3 && limit == 2 && fault.pos == 1 {
+			r.Sample(map[string]any{"case": id, "result": ierr.Error(), "last_block_map": last.Int64()})
+		}
 	case ierr != nil:
 		sig["kind"] = "error-without-fault"
 		r.Outcome("VIOLATION real importer: error-without-fault")
@@ -510,6 +733,16 @@ func c15RealCase(r *vlib.Run, s *testImportBlocks, id string, from base.Height, 
 		r.Violation(id, sig,
 			fmt.Sprintf("real importer: ImportBlocks(%d..%d, batchlimit=%d) returned nil but Database.LastBlockMap() height is %d and the block maps of heights [%s] are missing",
 				from, to, limit, last, strings.Join(missing, ",")), replay)
+	case fault.isCancel():
+		if n := env.fired(); n != 1 {
+			r.Outcome(fmt.Sprintf("real importer: %s site reached %d times", fault.kind, n))
+			r.Add("cancel_site_not_reached_once", 1)
+
+			break
+		}
+
+		r.Outcome("real importer: success after " + fault.kind + ", LastBlockMap == to")
+		r.Sample(map[string]any{"case": id, "result": "nil", "last_block_map": last.Int64()})
 	default:
 		r.Outcome("real importer: success, LastBlockMap == to")
 		r.Sample(map[string]any{"case": id, "result": "nil", "last_block_map": last.Int64()})
@@ -535,6 +768,16 @@ func c15Case(r *vlib.Run, id string, from base.Height, count, limit int64, fault
 	}
 	replay := map[string]any{"from": from.Int64(), "count": count, "limit": limit, "fault": fault.String()}
 
+	if fault.isCancel() {
+		sig["ctx_honoring_stubs"] = fault.honor
+		sig["last_batch_blocks_ge_2"] = c15LastBatch(count, limit) >= 2
+		r.Add("cancel_cases", 1)
+
+		if c15LastBatch(count, limit) >= 2 {
+			r.Add("cancel_cases_last_batch_ge_2", 1)
+		}
+	}
+
 	switch {
 	case res.err == nil && !res.complete:
 		sig["kind"] = "success-but-not-stored"
@@ -548,6 +791,12 @@ func c15Case(r *vlib.Run, id string, from base.Height, count, limit int64, fault
 		r.Violation(id, sig,
 			fmt.Sprintf("ImportBlocks(%d..%d, batchlimit=%d) without any fault returned %v; events: %s",
 				from, from+base.Height(count)-1, limit, res.err, res.events), replay)
+	case fault.isCancel() && res.cancelFired != 1:
+		// cannot happen on a tree where every stub call site is reached exactly once; not an oracle of the property
+		r.Outcome(fmt.Sprintf("%s site reached %d times", fault.kind, res.cancelFired))
+		r.Add("cancel_site_not_reached_once", 1)
+	case fault.isCancel():
+		c15CancelOutcome(r, id, count, limit, fault, res)
 	case res.err == nil:
 		r.Outcome("success, all stored")
 		if multiple || (count > limit && count <= 5) {
